@@ -669,7 +669,10 @@ pub fn run(ctx: &Ctx, only: Option<&Only>) -> Report {
     total.merge(super::drive(&one, "turns", 600, secs * 0.3, |id, r| case("turns", id, th, r)));
     total.merge(super::drive(&one, "stress", 300, secs * 0.3, |id, r| case("stress", id, th, r)));
     total.merge(super::drive(&one, "construct_race", 240, secs * 0.1, |id, r| case("construct_race", id, th, r)));
-    total.merge(super::drive(ctx, "process_order", 96, secs * 0.1, |id, r| case("process_order", id, 1, r)));
+    // (re-executes the monitor as child processes: not under the interpreter / sanitizers)
+    if ctx.scale >= 1.0 {
+        total.merge(super::drive(ctx, "process_order", 96, secs * 0.1, |id, r| case("process_order", id, 1, r)));
+    }
     if ctx.scale >= 1.0 {
         total.floor("interleavings_one_thread", 1000);
         total.floor("interleavings_scripted_threads", 100);
